@@ -44,6 +44,14 @@ def specs(ctx):
                    multipart_chunksize=rng.choice([3, 4]), multipart_threshold=rng.choice([3, 4]), io_chunksize=2)
         out.append(dict(transfers=ts[:1 + i % 2] if i % 3 else ts, cfg=cfg,
                         chooser={'kind': ['pct', 'random'][i % 2], 'seed': rng.randrange(1 << 30), 'depth': 5}))
+    # a part (or the create) fails in the middle of a long stream upload: the rest of the stream is still
+    # read and handed to tasks that skip their work -- what they were given must be released all the same
+    for i in range(48 if ctx.thorough() else 12):
+        cfg = dict(max_request_concurrency=rng.choice([1, 2]), max_submission_concurrency=1,
+                   max_in_memory_upload_chunks=rng.choice([1, 2]), multipart_chunksize=2, multipart_threshold=rng.choice([2, 4]))
+        out.append(dict(transfers=[dict(kind='upload', src='nonseekable', size=rng.choice([17, 19]))], cfg=cfg,
+                        chooser={'kind': ['random', 'pct'][i % 2], 'seed': rng.randrange(1 << 30), 'depth': 4},
+                        s3_fault=dict(idx=rng.choice([0, 1, 2, 3]), when=rng.choice(['before', 'after']))))
     for i in range(60 if ctx.thorough() else 16):
         k = rng.choice([4, 5, 6])
         ts = [dict(kind='upload', src='nonseekable', size=rng.choice([1, 2])) for _ in range(k)]
